@@ -261,8 +261,9 @@ def e1wrap(name, src, mode, deadline=(100, 780)):
 
 
 prop("C16", lambda tier: [e1wrap("c16ld", "harness/c16_pthread.c", "ld"), e1wrap("c16dl", "harness/c16_pthread.c", "dl")],
-     "12 families of determinate pthread programs (spawn trees, attribute objects, detached threads, statically initialised mutex/cond first used concurrently, barrier phases, spin locks, once, "
-     "keys with destructors, self/equal, pthread_exit from nested frames, yield/usleep mixes) with 2-3 threads; reference = the same binary with MYTH_WRAP_PTHREAD=0 (system pthreads); "
+     "16 families of determinate pthread programs (spawn trees, attribute objects, detached threads, statically initialised mutex/cond first used concurrently, barrier phases, spin locks, once, "
+     "keys with destructors (two variants), 18 keys read before and after neighbouring stores, self/equal, pthread_exit from nested frames, yield/usleep mixes, trylock/timedlock on a held mutex, "
+     "return codes of the init/destroy/attr calls) with 2-3 threads; reference = the same binary with MYTH_WRAP_PTHREAD=0 (system pthreads); "
      "the redirected run is explored under all schedules with <= K deviations for both redirection mechanisms (ld --wrap objects, symbol-interposing objects)",
      assumptions=E1_ASSUME + ["programs are determinate by construction (their log is ordered by joins); calls outside the supported subset are out of scope as the property says",
                               "both mechanisms are exercised in statically linked form (objects compiled with MYTH_WRAP_LD + @myth-ld.opts; objects compiled with MYTH_WRAP_DL defining the pthread symbols themselves)"])
